@@ -61,6 +61,22 @@ namespace drv {
       }
       return bad;
    }
+   // one name declared with THREE distinct types, entered in the order (a, b, c) of their address ranks: every selection by type after every step
+   unsigned s_types3(const Name& n0, const Name& other, const Type& t0, const Type& t1, const Type& t2, const Type& t3, int a, int b, int c)
+   {
+      impl::Region& r = root(); Hist h; h.k = 3; const Type* ts[3] = { &t0, &t1, &t2 }; int ord[MAXH] = { a, b, c }; unsigned bad = 0;
+      for (int i = 0; i < MAXH; ++i) {
+         h.n[i] = &n0; h.t[i] = ts[ord[i]]; h.d[i] = r.declare_var(n0, *h.t[i]);
+         Hist p = h; p.k = i + 1; bad |= scope_clauses(r.bindings(), p, other, t3);
+         for (int j = 0; j < 3; ++j) {                       // the complete selection matrix: declared types select their declaration, the others nothing
+            bool declared = false; const ipr::Decl* d = nullptr;
+            for (int q = 0; q <= i; ++q) if (h.t[q] == ts[j]) { declared = true; d = h.d[q]; }
+            Optional<ipr::Decl> sel = static_cast<const ipr::Region&>(r).bindings()[n0].get()[*ts[j]];
+            if (sel.is_valid() != declared || (declared && &sel.get() != d)) bad |= 8u;
+         }
+      }
+      return bad;
+   }
    // the other declaration kinds take the same path (Scope::make_*): one declaration then a redeclaration, kinds mixed
    unsigned s_mixed(const Name& n0, const Name& n2, const Type& t0, const Type& t2, const ipr::Function& f0, const ipr::Forall& q0, int which)
    {
